@@ -88,7 +88,7 @@ Qed.
 
 (* ---------- specification ---------- *)
 Definition rlen (indptr : list nat) (i : nat) : nat := nth (S i) indptr 0 - nth i indptr 0.
-Definition seg {A} (indptr : list nat) (l : list A) (i : nat) : list A :=
+Definition rseg {A} (indptr : list nat) (l : list A) (i : nat) : list A :=
   firstn (rlen indptr i) (skipn (nth i indptr 0) l).
 Definition kept_rows (mask : list bool) (r : nat) : list nat :=
   filter (fun i => nth i mask false) (seq 0 r).
@@ -109,8 +109,8 @@ Proof.
 Qed.
 
 Lemma nth_seg {A} indptr (l : list A) i k d :
-  k < rlen indptr i -> nth k (seg indptr l i) d = nth (nth i indptr 0 + k) l d.
-Proof. intros H. unfold seg. rewrite nth_firstn_lt by exact H. apply nth_skipn_add. Qed.
+  k < rlen indptr i -> nth k (rseg indptr l i) d = nth (nth i indptr 0 + k) l d.
+Proof. intros H. unfold rseg. rewrite nth_firstn_lt by exact H. apply nth_skipn_add. Qed.
 
 Section Compaction.
   Variable m : nat.
@@ -126,11 +126,11 @@ Section Compaction.
     specialize (Hmono j). lia.
   Qed.
 
-  Definition cat {A} (l : list A) (r : nat) : list A := concat (map (seg indptr l) (kept_rows mask r)).
+  Definition cat {A} (l : list A) (r : nat) : list A := concat (map (rseg indptr l) (kept_rows mask r)).
   Definition lens (r : nat) : list nat := map (rlen indptr) (kept_rows mask r).
 
   Lemma cat_S {A} (l : list A) r :
-    cat l (S r) = cat l r ++ (if nth r mask false then seg indptr l r else []).
+    cat l (S r) = cat l r ++ (if nth r mask false then rseg indptr l r else []).
   Proof.
     unfold cat. rewrite kept_rows_S, map_app, concat_app.
     destruct (nth r mask false); simpl; [rewrite app_nil_r|]; reflexivity.
@@ -139,9 +139,9 @@ Section Compaction.
   Lemma lens_S r : lens (S r) = lens r ++ (if nth r mask false then [rlen indptr r] else []).
   Proof. unfold lens. rewrite kept_rows_S, map_app. destruct (nth r mask false); reflexivity. Qed.
 
-  Lemma seg_length {A} (l : list A) i : i < m -> nth m indptr 0 <= length l -> length (seg indptr l i) = rlen indptr i.
+  Lemma seg_length {A} (l : list A) i : i < m -> nth m indptr 0 <= length l -> length (rseg indptr l i) = rlen indptr i.
   Proof.
-    intros Hi Hl. unfold seg. rewrite firstn_length, skipn_length. unfold rlen.
+    intros Hi Hl. unfold rseg. rewrite firstn_length, skipn_length. unfold rlen.
     pose proof (indptr_mono (S i) m). pose proof (Hmono i Hi). lia.
   Qed.
 
@@ -276,8 +276,8 @@ Theorem remove_rows_ok_lemma m n indptr indices data mask :
   wf_csr m indptr indices data ->
   remove_rows indptr indices data (m, n) mask =
     (psums 0 (map (rlen indptr) (kept_rows mask m)),
-     concat (map (seg indptr indices) (kept_rows mask m)),
-     concat (map (seg indptr data) (kept_rows mask m)),
+     concat (map (rseg indptr indices) (kept_rows mask m)),
+     concat (map (rseg indptr data) (kept_rows mask m)),
      (length (kept_rows mask m), n)).
 Proof.
   intros (Hlen & H0 & Hmono & Hend & Hix).
@@ -305,4 +305,127 @@ Proof.
     - rewrite firstn_length. lia.
     - intros p Hp. rewrite firstn_length in Hp. rewrite nth_firstn_lt by lia. apply Pd. lia. }
   rewrite E1, E2, E3. reflexivity.
+Qed.
+
+(* ================================================================================================
+   remove_rows_denotes: from the arrays to the content.  For EVERY well-formed compressed matrix
+   (Model/Sparse.v wf_cs: unsorted indices and stored zeros allowed) the arrays the kernel leaves
+   behind are exactly Sparse.of_segs of the kept rows' segments, so they form a well-formed
+   compressed matrix that denotes the row selection of the dense matrix.                           *)
+From BiomV Require Import Base.Matrix Model.Sparse Proofs.SparseProofs.
+
+Lemma last_nth_pred (l : list nat) : last l 0 = nth (length l - 1) l 0.
+Proof.
+  induction l as [|x l IH]; [reflexivity|]. destruct l as [|y l]; [reflexivity|].
+  change (last (x :: y :: l) 0) with (last (y :: l) 0). rewrite IH. simpl. rewrite Nat.sub_0_r. reflexivity.
+Qed.
+
+Lemma monotone_step l : monotone l -> forall i, S i < length l -> nth i l 0 <= nth (S i) l 0.
+Proof.
+  induction l as [|x l IH]; intros M i Hi; [simpl in Hi; lia|].
+  destruct l as [|y l]; [simpl in Hi; lia|]. destruct M as [Hxy M].
+  destruct i as [|i]; [exact Hxy|]. apply (IH M i). simpl in *. lia.
+Qed.
+
+Lemma wf_cs_wf_csr r : wf_cs r -> wf_csr (major r) (indptr r) (indices r) (data r).
+Proof.
+  intros (Hl & H0 & Hm & Hlast & Hix & _). unfold wf_csr. repeat split; try assumption.
+  - intros i Hi. apply monotone_step; [exact Hm|lia].
+  - rewrite last_nth_pred, Hl in Hlast. simpl in Hlast. rewrite Nat.sub_0_r in Hlast. exact Hlast.
+Qed.
+
+Lemma offsets_psums a ss : offsets a ss = psums a (map (@length entry) ss).
+Proof. revert a. induction ss as [|s ss IH]; intros a; simpl; [reflexivity|]. rewrite IH. reflexivity. Qed.
+
+Lemma map_fst_combine_eq {A B} (l : list A) (l' : list B) : length l = length l' -> map fst (combine l l') = l.
+Proof.
+  revert l'. induction l as [|x l IH]; intros [|y l'] H; simpl in *; try reflexivity; try discriminate.
+  rewrite IH by lia. reflexivity.
+Qed.
+
+Lemma map_snd_combine_eq {A B} (l : list A) (l' : list B) : length l = length l' -> map snd (combine l l') = l'.
+Proof.
+  revert l'. induction l as [|x l IH]; intros [|y l'] H; simpl in *; try reflexivity; try discriminate.
+  rewrite IH by lia. reflexivity.
+Qed.
+
+Lemma map_firstn {A B} (f : A -> B) n l : map f (firstn n l) = firstn n (map f l).
+Proof. revert l. induction n as [|n IH]; intros [|x l]; simpl; try reflexivity. rewrite IH. reflexivity. Qed.
+
+Lemma map_skipn {A B} (f : A -> B) n l : map f (skipn n l) = skipn n (map f l).
+Proof. revert l. induction n as [|n IH]; intros [|x l]; simpl; try reflexivity. apply IH. Qed.
+
+(* the segment of the entries projects onto the segments of the two arrays *)
+Lemma seg_fst r i : length (indices r) = length (data r) -> map fst (Sparse.seg r i) = rseg (indptr r) (indices r) i.
+Proof.
+  intros H. unfold Sparse.seg, rseg, rlen, entries. cbv zeta.
+  rewrite map_firstn, map_skipn, map_fst_combine_eq by exact H. reflexivity.
+Qed.
+
+Lemma seg_snd r i : length (indices r) = length (data r) -> map snd (Sparse.seg r i) = rseg (indptr r) (data r) i.
+Proof.
+  intros H. unfold Sparse.seg, rseg, rlen, entries. cbv zeta.
+  rewrite map_firstn, map_skipn, map_snd_combine_eq by exact H. reflexivity.
+Qed.
+
+Lemma concat_map_map {A B} (f : A -> B) (ll : list (list A)) : map f (concat ll) = concat (map (map f) ll).
+Proof. induction ll as [|l ll IH]; [reflexivity|]. simpl. rewrite map_app, IH. reflexivity. Qed.
+
+Lemma kept_rows_lt mask m i : In i (kept_rows mask m) -> i < m.
+Proof. unfold kept_rows. intros H. apply filter_In in H. destruct H as [H _]. apply in_seq in H. lia. Qed.
+
+(* K1 restated over Sparse: the result IS of_segs of the kept segments *)
+Lemma remove_rows_of_segs r mask : wf_cs r ->
+  remove_rows (indptr r) (indices r) (data r) (major r, minor r) mask =
+  (let c := of_segs (minor r) (map (Sparse.seg r) (kept_rows mask (major r))) in
+   (indptr c, indices c, data c, (major c, minor c))).
+Proof.
+  intros W. pose proof (wf_cs_wf_csr r W) as Wc.
+  rewrite (remove_rows_ok_lemma _ _ _ _ _ mask Wc).
+  destruct Wc as (Hl & H0 & Hmono & Hend & Hix).
+  unfold of_segs. cbv zeta. cbn [indptr indices data major minor].
+  rewrite offsets_psums, !concat_map_map, !map_map, map_length.
+  assert (E1 : map (fun x => length (Sparse.seg r x)) (kept_rows mask (major r)) = map (rlen (indptr r)) (kept_rows mask (major r))).
+  { apply map_ext_in. intros i Hi. apply kept_rows_lt in Hi.
+    change (Sparse.seg r i) with (rseg (indptr r) (entries r) i).
+    apply (seg_length (major r) (indptr r) Hl Hmono); [exact Hi|].
+    unfold entries, entry. rewrite combine_length, Hix, Nat.min_id, Hend. lia. }
+  assert (E2 : map (fun x => map fst (Sparse.seg r x)) (kept_rows mask (major r)) = map (rseg (indptr r) (indices r)) (kept_rows mask (major r)))
+    by (apply map_ext; intros i; apply seg_fst; exact Hix).
+  assert (E3 : map (fun x => map snd (Sparse.seg r x)) (kept_rows mask (major r)) = map (rseg (indptr r) (data r)) (kept_rows mask (major r)))
+    by (apply map_ext; intros i; apply seg_snd; exact Hix).
+  rewrite E1, E2, E3. reflexivity.
+Qed.
+
+Lemma select_map_filter {A B} (g : A -> bool) (f : A -> B) l : select (map g l) (map f l) = map f (filter g l).
+Proof. induction l as [|x l IH]; [reflexivity|]. simpl. destruct (g x); simpl; rewrite IH; reflexivity. Qed.
+
+(* a mask is read with default false: shorter masks drop the remaining rows, longer ones are cut *)
+Lemma select_pad {A} (l : list A) : forall mask,
+  select mask l = select (map (fun i => nth i mask false) (seq 0 (length l))) l.
+Proof.
+  induction l as [|x l IH]; intros mask; [destruct mask; reflexivity|].
+  cbn [length seq map]. rewrite <- seq_shift, map_map. destruct mask as [|b mk].
+  - cbn [nth select]. rewrite (map_ext (fun i => nth (S i) [] false) (fun i => nth i [] false))
+      by (intros [|i]; reflexivity).
+    rewrite <- IH. reflexivity.
+  - cbn [nth select]. rewrite (IH mk). reflexivity.
+Qed.
+
+Theorem remove_rows_denotes_lemma r mask : wf_cs r ->
+  let '(ip, ind, dat, (m', n)) := remove_rows (indptr r) (indices r) (data r) (major r, minor r) mask in
+  wf_cs (mkCS m' n ip ind dat) /\ dense_of (mkCS m' n ip ind dat) = sel_rows mask (dense_of r).
+Proof.
+  intros W. rewrite (remove_rows_of_segs r mask W). cbv beta iota zeta.
+  set (ss := map (Sparse.seg r) (kept_rows mask (major r))).
+  change (mkCS (major (of_segs (minor r) ss)) (minor (of_segs (minor r) ss)) (indptr (of_segs (minor r) ss))
+               (indices (of_segs (minor r) ss)) (data (of_segs (minor r) ss))) with (of_segs (minor r) ss).
+  split.
+  - apply wf_of_segs. pose proof (wf_segs r W) as F. rewrite Forall_forall in F. apply Forall_forall.
+    intros s Hs. unfold ss in Hs. apply in_map_iff in Hs. destruct Hs as (i & <- & Hi).
+    apply F. unfold segs. apply in_map. apply in_seq. apply kept_rows_lt in Hi. lia.
+  - rewrite dense_of_of_segs. unfold sel_rows. rewrite (select_pad (dense_of r) mask), dense_of_length.
+    unfold dense_of, dense_of_segs, segs, ss. rewrite !map_map.
+    rewrite (select_map_filter (fun i => nth i mask false) (fun i => row_of_seg (minor r) (Sparse.seg r i))).
+    reflexivity.
 Qed.
